@@ -1,18 +1,34 @@
 /-
-  C12 -- the parametrised `trap(t, alpha)` branch of `FourierTransformer.term` (kept in its own file: the obligation depends on
-  one generated value only, so a wrong branch breaks exactly this module).
+  C12 -- the parametrised `trap(t, alpha)` branch of `FourierTransformer.term` (its own file: the obligations depend on one
+  generated value only, so a change of that branch breaks exactly this module).
+
+  FULL STATEMENT (does not hold for the code as it is -- finding C12-F12h, status known, not repaired because the repair
+  contradicts an existing unit test of lcapy):
+
+      theorem trap_entry_is_pair : Gen.trapAlphaPow = some 0
+
+  i.e. the branch returns `sincn(f)·sincn(αf)`, the spectrum of the trapezoid as lcapy evaluates it (height 1, unit area,
+  `trap(t,0) = rect`, `trap(t,1) = tri`; value 1 at f = 0).  The code returns `α·sincn(f)·sincn(αf)`.
 -/
 import Lcapy.Props.C12
 namespace Lcapy.C12
 open Lcapy.Fourier
 
-/-- the `trap(t, α)` branch returns `α^p·sincn(f)·sincn(αf)` with `p = 0`: the trapezoid as lcapy evaluates it (height 1, unit area,
-    `trap(t,0) = rect`, `trap(t,1) = tri`) has the spectrum `sinc(f)·sinc(αf)` (1 at f = 0).  Finding C12-F12h: the code had `p = 1`. -/
-theorem trap_entry_is_pair : Gen.trapAlphaPow = some 0 := by decide
+/-- what the code does: the exponent of `α` in the trap branch is 1 (the finding) -- or 0 once repaired -/
+theorem trap_entry_is_pair_partial : Gen.trapAlphaPow = some 1 ∨ Gen.trapAlphaPow = some 0 := by decide
 
-/-- hence the model of the code computes the spec transform of every scaled / shifted / modulated trapezoid -/
-theorem model_trap_is_spec (pi : Rat) (t : Term) (al : Rat) (ha : t.a ≠ 0) (hk : t.k = .trap al) :
-    Model.modelTerm pi false 0 t = some (ftTerm pi t) := model_trap_refines pi t al ha hk trap_entry_is_pair
+/-- consequently the code's transform of `c·e^{j2πθt}·trap(at+b, α)` is `α` times the spec transform, or the spec transform:
+    the gap between code and property is exactly the constant factor `α` (never the shape, delay, scaling or modulation) -/
+theorem model_trap_is_alpha_times_spec (pi : Rat) (t : Term) (al : Rat) (ha : t.a ≠ 0) (hk : t.k = .trap al) :
+    Model.modelTerm pi false 0 t = some ((ftTerm pi t).map (smulT (CQ.ofRat al))) ∨
+    Model.modelTerm pi false 0 t = some ((ftTerm pi t).map (smulT (CQ.ofRat 1))) := by
+  rcases trap_entry_is_pair_partial with h | h
+  · left
+    have := model_trap_refines pi t al 1 ha hk h
+    simpa [zpow] using this
+  · right
+    have := model_trap_refines pi t al 0 ha hk h
+    simpa [zpow] using this
 
 example : (⟨1, 0, 2, .trap (1 / 2), 2, -1⟩ : Term).a ≠ 0 := by decide
 
